@@ -12,6 +12,12 @@ TEXT = {
  "C06": ("model_checking", "stream = function of frame index ('known' content map) and the seek contract (SeekOK) checked by TLC on all TLC-enumerated seek/read histories and on seeded seek/read sequences at block edges for every format", "TLC history enumeration (Gen_rw) replayed + TraceCore validation"),
  "C08": ("model_checking", "two-pointer RDWR semantics: invariants C08_* exhaustively on the bounded model, all TLC-enumerated RDWR histories replayed into the library and validated, seeded long RDWR sequences on all formats", "MC_rw + Gen_rw replay + TraceCore validation"),
  "C09": ("model_checking", "failure atomicity / clean success: C09_Atomic, C09_Clean on the bounded model; recorded executions with every kind of invalid call validated (state unchanged, error set, message non-empty), failing opens, error table", "MC_rw invariants C09_* + TraceCore validation"),
+ "C07": ("model_checking", "byte identity of files written from the same samples under different partitions / call variants / header updates / processes, decided by TLC (SameBytesOK, CanonOK in TraceCore) over every writable format", "TraceCore digest clauses + MC_rw"),
+ "C11": ("model_checking", "crash images (copy of the backing store after every header update) opened by a second handle and validated by TLC against the writer's model state: parameters, whole-block frame count, prefix data; finished file identical to a twin without updates", "TraceCore (FileEffect/OpenWrittenOK image clauses)"),
+ "C19": ("model_checking", "per-handle model states in TraceCore: interleaved multi-handle executions are explained only if every handle behaves as if alone; solo re-runs must give byte identical files; concurrent readers share the content map", "TraceCore multi-handle validation"),
+ "C14": ("model_checking", "route independence: same content through vio/fd/path/embedded/pipe validated against one content map; byte identity across write routes; descriptor closed iff close_desc (CloseOK)", "TraceCore validation across routes"),
+ "C15": ("fault_enumeration", "complete enumeration of fault points x kinds x persistence for representative workloads, each execution validated by TLC with the widened (relax) outcome sets of SfHandle; watchdog for non-returning calls; ledger at scenario end", "fault enumeration + TraceCore (relax clauses)"),
+ "C16": ("model_checking", "ledger clauses EndOK / OpenFailedOK evaluated by TLC on every scenario: heap (ASan allocator statistics), descriptors, temp files; dedicated sweep of opens failing at each parse depth", "TraceCore ledger clauses"),
 }
 NOTE = "trusted: TLC, the driver's faithful reporting (harness/sfdrive.c), the hook sf_verif_snapshot (read-only copy of handle fields), clang ASan; bounded inputs as listed in the evidence file"
 
